@@ -2,5 +2,5 @@ SPECIFICATION Spec
 CONSTANTS MaxEdit = 2  MaxInv = 3  MaxKill = 0  MaxFail = 0  GenDepth = 0
 CONSTANT Weak = {"NoPruneOnDigestChange"}
 VIEW view
-INVARIANT CexPrint
+CONSTRAINT CexPrint
 CHECK_DEADLOCK FALSE
